@@ -18,6 +18,7 @@ TRUSTED = ["numpy long double trigonometry",
            "B1950 constants (IAU 1958 galactic pole 192.25,+27.4, node 33.0; obliquity 23.4457889) are not in the file"]
 ASSUMPTIONS = ["comparisons are on-sky separations; longitude intervals are closed ([0,360], [-180,180])",
                "tolerances from the statement: 1e-5 deg for the tabulated transforms and rotate, 1e-9 deg for SDSS and unit vectors"]
+THOROUGH_ROUNDS = 8      # the thorough tier runs the generator over this many derived seeds
 REQUIRED = {"quick": {"C09.euler": 4000, "C09.sdss": 1000, "C09.xyz": 700, "C09.rotate": 350, "C09.shiftlon": 2000,
                       "C09.relations": 6000},
             "thorough": {"C09.euler": 60000, "C09.sdss": 15000, "C09.xyz": 10000, "C09.rotate": 5000, "C09.shiftlon": 30000,
